@@ -85,7 +85,13 @@ def run(tier):
             else:
                 w = rng.choice([3, 5, 17, 64, 257, 1021])
                 st = {"kind": "periodic", "period": [rng.choice([rng.randrange(256), 0x55, 0x0f, 0xaa, 0x33]) for _ in range(w)], "len": -1}
-            tj.append(wf.mk_single(jid, nb, stream=st, policy=rng.choice(["full", "fixed", "one", "random"]), size=11, rseed=jid, tag="len"))
+            jn = wf.mk_single(jid, nb, stream=st, policy=rng.choice(["full", "fixed", "one", "random"]), size=11, rseed=jid, tag="len")
+            if nb >= 16 and jid % 4 == 0:
+                # the source holds exactly the requested bytes and delivers the last of them together with io.EOF
+                jn["stream"] = dict(st, len=nb)
+                jn["reader"]["eofWithData"] = True
+                jn["tag"] = "len, EOF with the last bytes"
+            tj.append(jn)
     # large requests in which one byte value occurs 2^16 times or more (pattern counts beyond 16 bits), constant or nearly so
     for nb in [65535, 65536, 65537, 70000, 131072] + ([262144, 1048576] if thorough else []):
         for per in ([rng.randrange(256)], [0x5A] * 15 + [rng.randrange(256)], [0xFF] * 31 + [rng.randrange(256), rng.randrange(256)]):
@@ -118,6 +124,26 @@ def run(tier):
     rows.update(crow)
     tj += cj
     run.extra["simultaneous_calls"] = len(cj)
+    # a platform whose int has 32 bits (GOARCH=386 build of the driver): the dominated large requests and a stride of the sweep
+    try:
+        hz386 = vlib.go_build(goarch="386")
+        ok386 = vlib.can_run_386(hz386)
+    except vlib.InfraError:
+        ok386 = False
+    run.extra["int32_platform_pass"] = bool(ok386)
+    if ok386:
+        sub = []
+        for k_, j in enumerate(list(tj)):
+            if j.get("conc"):
+                continue
+            if j["tag"] == "dominated" or k_ % 9 == 0:
+                jid += 1
+                sub.append(dict(j, id=jid, tag=j["tag"] + " GOARCH=386"))
+        r3, c3 = vlib.run_hz_jobs(hz386, "workflow", sub, nproc=4)
+        if c3:
+            run.violation({"kind": "crash", "arch": "386"}, {"job": c3[0]["first_missing"], "stderr": c3[0]["stderr"][-1000:]})
+        rows.update(r3)
+        tj += sub
     events = [single_trace_event(j, rows[j["id"]]) for j in tj if rows.get(j["id"])]
     acc, rej, gen = vlib.validate_trace("TraceSingle", events, timeout=3000, max_rej=4)
     run.states += acc; run.transitions += gen; run.traces += acc; run.evaluations += len(events)
